@@ -2,7 +2,7 @@ from props.notif import FAMILY  # noqa: F401
 
 CHECK = dict(
     property='C20', level='exploration',
-    families=[('notif', 1.0), ('subs', 0.003)],     # a few full-server runs: the organic monitor
+    families=[('notif', 1.0), ('subs', 0.008)],     # a few full-server runs: the organic monitor
     budget=dict(quick=30, thorough=600), max_runs=dict(quick=2_000_000, thorough=50_000_000),
     rule=('each evaluation = one simulated run of the real Notifications object driven by two concurrent '
           'reporter tasks (block processor, mempool tracker) on the virtual-time loop, their calls produced by '
@@ -12,7 +12,9 @@ CHECK = dict(
           'that calls overlap); oracle RefNotifications: notify(h) only after a refresh at h and a block '
           'report/start at h; whenever both sources last reported the current height and no call is in '
           'progress, every script hash handed over since start is in some notification. The same oracle is fed '
-          'with the organically recorded calls of every full-server run (C07 family). non-trivial = >= 2 '
+          'with the organically recorded calls of every full-server run (C07 family; about 1 % of the runs), where '
+          'in addition the height a refresh is reported with must be the daemon height at which its mempool '
+          'listing was taken (runs in which the daemon height only ever rose). non-trivial = >= 2 '
           'notifications and >= 2 handed-over script hashes; distinct = distinct call sequence shape'),
     assumptions=['the abstract model of the surrounding system is read off the code (DESIGN.md 7/C20); the '
                  'organic monitor inside the full-server runs guards it'],
